@@ -61,6 +61,8 @@ def build_workload(desc):
         }
         if e.get("n_instances", 1) != 1:
             d["n_instances"] = e["n_instances"]
+        if e.get("is_copy_operation"):
+            d["is_copy_operation"] = True
         einsums.append(d)
     kw = dict(
         einsums=einsums,
@@ -108,7 +110,7 @@ def build_arch(desc):
             continue
         common["leak_power"] = num(n.get("leak", 0))
         common["area"] = num(n.get("area", 0))
-        for k in ("energy_scale", "area_scale", "leak_power_scale", "n_parallel_instances", "total_latency"):
+        for k in ("energy_scale", "area_scale", "leak_power_scale", "n_parallel_instances", "total_latency", "actions_scale"):
             if k in n:
                 common[k] = n[k]
         if t == "Compute":
